@@ -432,7 +432,15 @@ class PokerGameState:
             if self.last_actions.get(player) != Action.action_fold
         ]
         if len(players_at_showdown) < 2:
-            return self.pot.settle_showdown(
+            # settle a copy, like the showdown path below, so the chips
+            # stay in self.pot and stacks + pot keep adding up
+            pot = Pot(
+                num_players=self.num_players,
+                balances={p: bal for p, bal in self.pot.balances.items()},
+                rake_fraction=self.rake_fraction,
+                max_rake=self.max_rake,
+            )
+            return pot.settle_showdown(
                 winning_players=[players_at_showdown],
                 rake_pot=self.should_rake_pot(),
             )
